@@ -57,8 +57,9 @@ type State struct {
 }
 
 type heapWrite struct {
-	key string
-	ref *Term // nil: unknown / whole map
+	key   string
+	ref   *Term // nil: unknown / whole map
+	guard *Term
 }
 
 type WriteLog struct {
@@ -106,7 +107,7 @@ func (s *State) hset(key string, t *Term, ref *Term) {
 	heapSorts[key] = t.S
 	s.heap[key] = t
 	for w := s.wlog; w != nil; w = w.parent {
-		w.heap = append(w.heap, heapWrite{key, ref})
+		w.heap = append(w.heap, heapWrite{key, ref, s.guard})
 	}
 }
 
@@ -270,8 +271,8 @@ func (x *Exec) assumeTyped(t types.Type, tm *Term) {
 		}
 	}
 	if tm.S == SliceS {
-		x.vc.assume(And(Ge(SLen(tm), IntLit(0)), Ge(SOff(tm), IntLit(0)), Ge(SArr(tm), IntLit(0)),
-			Implies(Eq(SArr(tm), IntLit(0)), Eq(SLen(tm), IntLit(0)))))
+		x.vc.assume(And(Ge(SLen(tm), IntLit(0)), Ge(SOff(tm), IntLit(0)), Ge(SArr(tm), IntLit(0)), Ge(SCap(tm), SLen(tm)),
+			Implies(Eq(SArr(tm), IntLit(0)), Eq(SCap(tm), IntLit(0)))))
 	}
 }
 
